@@ -17,6 +17,7 @@ GRIDBASE = {
     "density_lin": ("density", {"dens": "lin"}),
     "density_sq": ("density", {"dens": "sq"}),
     "dense_edges": ("dense_edges", {}),
+    "dense_edges_m3": ("dense_edges", {"multiplier": 3, "edge_frac": 0.2}),
     "free": ("free", {}),
 }
 OPTS = {
@@ -66,7 +67,7 @@ def cases(tier):
                                 continue
                             out.append(dict(kind="single", d=mk(base, opt, N, M, h, meth), dev=[base, opt]))
     # two OCPs declared one after the other in the same process (grid objects must not share state)
-    dens = ["density_lin", "density_sq", "dense_edges", "geom2", "geom4", "function", "uniform"]
+    dens = ["density_lin", "density_sq", "dense_edges", "dense_edges_m3", "geom2", "geom4", "function", "uniform"]
     for a, b in itertools.permutations(dens, 2):
         for N in ((3,) if tier != "thorough" else (2, 3, 4)):
             out.append(dict(kind="pair", d=mk(a, "plain", N, 1, "fixed", "MS"), d2=mk(b, "plain", N, 1, "fixed", "MS"), dev=[a, b]))
@@ -122,7 +123,7 @@ def semantics(case, res, tags):
         e1, i1 = trow_vals(w)
         if not (NL.close(times(w), b0 + A @ dw, 1e-9) and NL.close(e1, e0 + Je @ dw, 1e-9) and NL.close(i1, i0 + Ji @ dw, 1e-9)):
             return [dict(sig="harness:time-rows-not-affine", tags=tags, detail="grid rows are not affine in the time coordinates")]
-    n = RT.normalized(kind, opts, N) if kind not in ("dense_edges",) else None
+    n = RT.normalized(kind, opts, N)
     # (1) declared partitions are representable and satisfy the grid's own constraints
     Tvals = [0.6, 1.9, 3.1] if Tfree else [d["TT"]]
     t0vals = [-0.4, 0.7] if t0free else [d["T0"]]
@@ -142,7 +143,7 @@ def semantics(case, res, tags):
         w = w0.copy(); w[tco] += dw
         return w, float(np.max(np.abs(times(w) - target)))
     labelled = RT.grid_is_labelled(d)
-    TOL = 5e-6 if kind == "density" else 1e-9     # density grids are integrated numerically on both sides
+    TOL = {"density": 5e-6, "dense_edges": 3e-5}.get(kind, 1e-9)     # density grids are integrated numerically on both sides
     if n is not None or kind == "free":
         for T in Tvals:
             for t0 in t0vals:
@@ -245,7 +246,7 @@ def run_single(case):
     if kind == "dense_edges":
         # node locations are not modelled by the reference: take them as labelled, check structure only
         d = dict(d)
-    res = core.compare_case(d, return_rows=True) if kind != "dense_edges" else compare_dense(d)
+    res = core.compare_case(d, return_rows=True)
     tags = _trans.tags_of(d)
     vios = []
     if res.exception is not None:
@@ -294,4 +295,4 @@ def describe(tier):
     return dict(
         rule="full product grid class(9) x option set(8: plain, localize_t0, localize_T, both, min/max, localize_T+min/max, min only, max only) x N x M x horizon kind x method, plus ordered pairs of grid classes declared in one process; sampled control/integrator/collocation times, value(T,t0,tf), DT, DT_control compared with independently computed partitions (scipy quad+brentq for densities); for the grid's own NLP rows (real rows depending on time coordinates only): declared partitions are reachable and satisfy them, their equality rows admit nothing but the declared family (null-space analysis of the enumerated affine system), min/max are enforced exactly on a boundary lattice",
         bound="N in %s, M in %s" % (("1..8", "1..4") if tier == "thorough" else ("{1,2,3,5}", "{1,2}")),
-        assumptions=["CasADi Function evaluation and Opti bookkeeping are trusted", "DenseEdgesGrid node locations are checked structurally only (symmetric increasing partition)", "density grids compared at 1e-6 (both sides integrate numerically)"])
+        assumptions=["CasADi Function evaluation and Opti bookkeeping are trusted", "DenseEdgesGrid: the density is CasADi's own smooth_linear interpolant, equidistributed by scipy; compared at 2e-5 (rockit integrates it with cvodes + bisection)", "density grids compared at 1e-6 (both sides integrate numerically)"])
